@@ -288,6 +288,82 @@ def check_post_order(chk, m, L, R, CUR, PAR):
     chk.expect("M2", "masked navigation reads", n_nav, 1)
 
 
+def _ev_ptr(e, env):
+    """Concrete value of a pointer/integer expression under env (pointer casts are the identity)."""
+    if e in env:
+        return env[e]
+    k = e[0]
+    if k == "c":
+        return e[2]
+    if k == "null":
+        return 0
+    if k == "p":
+        if e[3]:
+            raise paths.NoValue(e)
+        return (_ev_ptr(e[1], env) + e[2]) & ((1 << 64) - 1)
+    if k == "cast":
+        v = _ev_ptr(e[4], env)
+        if e[1] in ("ptrtoint", "inttoptr", "bitcast"):
+            return v
+        return paths.eval_concrete(("cast", e[1], e[2], e[3], ("c", e[2], v & ((1 << e[2]) - 1))), {})
+    if k == "b":
+        a, b = _ev_ptr(e[3], env), _ev_ptr(e[4], env)
+        r = paths.fold_bin(e[1], e[2], ("c", e[2], a & ((1 << e[2]) - 1)), ("c", e[2], b & ((1 << e[2]) - 1)))
+        if r is None:
+            raise paths.NoValue(e)
+        return r[2]
+    if k == "icmp":
+        a, b = _ev_ptr(e[2], env), _ev_ptr(e[3], env)
+        return paths.fold_icmp(e[1], ("c", 64, a), ("c", 64, b))[2]
+    raise paths.NoValue(e)
+
+
+def check_which_link(chk, fn, p, sid, node, par, k0, L, R):
+    """The link patched after dealloc(n) must be the one that pointed at n.  Pointer values enter the decision only
+    through equality and bit 0, so the three situations the post-order walk can deliver n in are exhaustive:
+      A  n is the LEFT child:  parent->left == n|1 (still marked), parent->right absent or some other node;
+      B  n is the RIGHT child: parent->right == n, and the left link reads exactly 1 - the marked form of 'no left child'
+         or of a left child already freed and patched (post-order delivers, and bintree_free patches, the left subtree first).
+    A path that is feasible in a situation must leave: A - left == 1 (masked NULL, mark kept so the parent still counts as
+    unvisited) and right untouched;  B - right == NULL and left still 1."""
+    N, P_, OTHER = 0x1000, 0x3000, 0x2000
+    ev = p.events
+    scen = (("A: n is the left child, no right sibling", N | 1, 0), ("A: n is the left child, right sibling present", N | 1, OTHER),
+            ("B: n is the right child", 1, N))
+    for name, lv, rv in scen:
+        env = {node: N, par: P_}
+        for top in [c for c, t, i in p.conds] + [e.val for e in ev if e.kind == "store" and e.val is not None]:
+            for x in paths.subexprs(top):
+                if x[0] == "ld" and x[1] is not None:
+                    r, o, v = ptr_parts(x[1])
+                    if r == par and not v and o in (L, R):
+                        env[x] = lv if o == L else rv
+        try:
+            if not all(bool(_ev_ptr(c, env)) == bool(t) for c, t, i in p.conds if i is None or i.op != "switch"):
+                continue
+            left, right = lv, rv
+            for e in ev[k0:]:
+                if e.kind == "store" and ptr_parts(e.ptr)[0] == par and not ptr_parts(e.ptr)[2]:
+                    if ptr_parts(e.ptr)[1] == L:
+                        left = _ev_ptr(e.val, env)
+                    elif ptr_parts(e.ptr)[1] == R:
+                        right = _ev_ptr(e.val, env)
+        except paths.NoValue as nv:
+            chk.unknown("M3.which-link", sid, "the decision which parent link to patch depends on %s, which is not a function of the "
+                        "parent's links and the freed node" % fmt(nv.args[0])[:60], ev[k0].inst.loc)
+            return
+        if name.startswith("A"):
+            ok = left == 1 and right == rv
+            why = "left must become 1 (marked NULL) and right stay as it was; left=%#x right=%#x" % (left, right)
+        else:
+            ok = right == 0 and left == 1
+            why = "right must become NULL and left stay 1 (marked NULL); left=%#x right=%#x" % (left, right)
+        chk.ob("M3.which-link", "%s / %s" % (sid, name), ok,
+               "the link that pointed at the freed node is the one cleared" if ok else
+               "%s - the link to the freed node survives (or a live link is destroyed), so the iterator's next descent reads freed memory" % why,
+               ev[k0].inst.loc, fn.name)
+
+
 def check_free(chk, m, L, R, CUR, PAR):
     fn, ss = segs(m, "bintree_free")
     chk.note_fn(fn)
@@ -326,6 +402,7 @@ def check_free(chk, m, L, R, CUR, PAR):
             chk.ob("M3.parent-patched", sid, ok,
                    "the parent's link to the freed child is overwritten (right := NULL, or left := visited marker) before the iterator "
                    "is advanced, so it never descends into freed memory", ev[k0].inst.loc, fn.name)
+            check_which_link(chk, fn, p, sid, node, par, k0, L, R)
     chk.expect("M3", "deallocating segments of bintree_free", n, 2)
     for name, off in (("bintree_free_left", L), ("bintree_free_right", R)):
         f = m.fn(name)
@@ -414,6 +491,86 @@ def check_list_iterators(chk, m, L, R, CUR, PAR):
                     chk.ob("M5.left-step", sid, found, "the new position is the node whose left child is the old position",
                            st[0].inst.loc, name)
     chk.expect("M5", "returning segments of the list step functions", n, 3)
+    check_list_setup(chk, m, L, R, CUR, PAR)
+
+
+def call_truth(p, is_call):
+    """{call-result expr: True/False} for the calls selected by is_call whose outcome the path's conditions decide."""
+    out = {}
+    for c, taken, inst in p.conds:
+        atoms = [x for x in paths.subexprs(c) if x[0] == "call" and is_call(x)]
+        if len(atoms) != 1:
+            continue
+        try:
+            t1 = bool(_ev_ptr(c, {atoms[0]: 1})) == bool(taken)
+            t0 = bool(_ev_ptr(c, {atoms[0]: 0})) == bool(taken)
+        except paths.NoValue:
+            continue
+        if t1 != t0:
+            out[atoms[0]] = t1
+    return out
+
+
+def check_list_setup(chk, m, L, R, CUR, PAR):
+    """M5.left-setup: bintree_iterate_list may hand the iteration to the left-leaning walker only on a spine it has
+    verified.  The set-up descends left links and treats every node it steps onto as a spine (list) node - it reads that
+    node's left child and finally yields it as the first element.  Loop invariant checked on every arrival at the
+    descent loop (from the entry and round the loop): is_list(T->left) has just answered true for the node T the next
+    iteration starts from; the step goes to exactly T->left; on leaving, that node becomes iter->curr and its left child
+    is returned; iter->parent is the root."""
+    name = "bintree_iterate_list"
+    fn, ss = segs(m, name)
+    chk.note_fn(fn)
+    filt = lambda x: x[1] == ("*", ("arg", 2))
+    sel = [(s, p) for s, p in ss if any(e.kind == "store" and e.val == ("fn", "list_left_iterator") for e in p.events)]
+    if not sel:
+        chk.unknown("M5.left-setup", name, "no path selects list_left_iterator (anchor vanished)", fn.loc)
+        return
+    heads = set(p.end[4:] for s, p in sel if p.end.startswith("cut:"))
+    if len(heads) != 1 or any(not p.end.startswith("cut:") for s, p in sel):
+        chk.unknown("M5.left-setup", name, "the left-leaning set-up is not a single descent loop entered from the selecting path", fn.loc)
+        return
+    H = heads.pop()
+    arrivals = [(s, p) for s, p in ss if p.end == "cut:" + H]
+    tnames = [k for s, p in sel for k, v in (p.carried or {}).items() if v == ("arg", 1)]
+    if len(set(tnames)) != 1:
+        chk.unknown("M5.left-setup", name, "cannot identify the descent variable at %s" % H, fn.loc)
+        return
+    tn = tnames[0]
+    n = 0
+    for s, p in arrivals:
+        T = p.carried.get(tn)
+        sid = "%s %s..%s" % (name, s.lstrip("%"), p.end)
+        truth = call_truth(p, filt)
+        want = strip_casts(("ld", paths.mkptr(T, L)))[:2] if T is not None else None
+        ok = T is not None and any(v is True and len(c[2]) == 1 and strip_casts(c[2][0])[:2] == want for c, v in truth.items())
+        n += 1
+        chk.ob("M5.left-setup", sid + " spine verified", ok,
+               "is_list(T->left) answered true for the node T the descent continues from: the node stepped onto next is a list node" if ok else
+               "the descent loop is reached without is_list(T->left) having answered true for T = %s: the set-up steps onto a node that "
+               "need not be a list node (a two-element list L(a, b) sends it onto the element a) and yields that node's child" % fmt(T)[:40],
+               p.ret_inst.loc if p.ret_inst is not None else fn.loc, name)
+        if s == fn.entry.name:
+            root = any(v is True and len(c[2]) == 1 and c[2][0] == ("arg", 1) for c, v in truth.items())
+            par = [e for e in p.events if e.kind == "store" and ptr_parts(e.ptr) == (("arg", 0), PAR, ())]
+            chk.ob("M5.left-setup", sid + " top", root and len(par) == 1 and par[0].val == ("arg", 1),
+                   "the root is a list node and is recorded as iter->parent (the fixed top of the spine)", fn.loc, name)
+        else:
+            Tin = ("sym", tn)
+            chk.ob("M5.left-setup", sid + " step", T is not None and strip_casts(T)[:2] == ("ld", paths.mkptr(Tin, L)),
+                   "each round steps to exactly T->left", fn.loc, name)
+    for s, p in ss:
+        if s == H and p.end == "ret":
+            n += 1
+            Tin = ("sym", tn)
+            st = [e for e in p.events if e.kind == "store" and ptr_parts(e.ptr) == (("arg", 0), CUR, ())]
+            cur = strip_casts(st[-1].val) if st else None
+            r = strip_casts(p.ret) if p.ret is not None else None
+            ok = cur is not None and cur[:2] == ("ld", paths.mkptr(Tin, L)) and r is not None and r[0] == "ld" and ptr_parts(r[1]) == (cur, L, ())
+            chk.ob("M5.left-setup", "%s %s..ret" % (name, s.lstrip("%")), ok,
+                   "on leaving the descent iter->curr is the verified spine node T->left and its left child is the first element",
+                   p.ret_inst.loc, name)
+    chk.expect("M5", "arrivals/exits of the left-leaning set-up", n, 3)
 
 
 def eq_fact2(p, a, b):
